@@ -1,0 +1,71 @@
+//go:build verif
+
+package yoda
+
+import (
+	"time"
+
+	abci "github.com/cometbft/cometbft/abci/types"
+	rpcclient "github.com/cometbft/cometbft/rpc/client"
+
+	"github.com/cosmos/cosmos-sdk/crypto/keyring"
+	sdk "github.com/cosmos/cosmos-sdk/types"
+
+	band "github.com/bandprotocol/chain/v3/app"
+	"github.com/bandprotocol/chain/v3/pkg/filecache"
+	"github.com/bandprotocol/chain/v3/x/oracle/types"
+	"github.com/bandprotocol/chain/v3/yoda/executor"
+)
+
+// VerifConfig carries everything the verification harness injects into a yoda Context (build tag verif only).
+type VerifConfig struct {
+	App             *band.BandApp
+	Client          rpcclient.Client
+	Validator       sdk.ValAddress
+	Executor        executor.Executor
+	FileCacheDir    string
+	Keyring         keyring.Keyring
+	Keys            []*keyring.Record
+	ChainID         string
+	MaxTry          uint64
+	RPCPollInterval time.Duration
+}
+
+// NewVerifContext builds a Context exactly as runCmd does, but with injected client, executor and keyring.
+// It sets the package globals kb and cfg.ChainID which the handlers read.
+func NewVerifContext(vc VerifConfig) *Context {
+	kb = vc.Keyring
+	cfg.ChainID = vc.ChainID
+	return &Context{
+		bandApp:         vc.App,
+		client:          vc.Client,
+		validator:       vc.Validator,
+		keys:            vc.Keys,
+		executor:        vc.Executor,
+		fileCache:       filecache.New(vc.FileCacheDir),
+		maxTry:          vc.MaxTry,
+		rpcPollInterval: vc.RPCPollInterval,
+		pendingMsgs:     make(chan ReportMsgWithKey),
+		freeKeys:        make(chan int64, len(vc.Keys)),
+		pendingRequests: make(map[types.RequestID]bool),
+	}
+}
+
+func verifLogger() *Logger {
+	return NewLogger(func(_, _ string) bool { return true })
+}
+
+// VerifHandleTransaction runs the real transaction handler.
+func (c *Context) VerifHandleTransaction(tx abci.TxResult) { handleTransaction(c, verifLogger(), tx) }
+
+// VerifHandleRequest runs the real request handler (as the start-up scan of pending requests does).
+func (c *Context) VerifHandleRequest(id types.RequestID) { handleRequest(c, verifLogger(), id) }
+
+// VerifPendingMsgs exposes the channel the handlers queue reports on.
+func (c *Context) VerifPendingMsgs() <-chan ReportMsgWithKey { return c.pendingMsgs }
+
+// VerifMsg returns the report message of a queued item.
+func (m ReportMsgWithKey) VerifMsg() *types.MsgReportData { return m.msg }
+
+// VerifKeyIndex returns the reporter key index of a queued item.
+func (m ReportMsgWithKey) VerifKeyIndex() int64 { return m.keyIndex }
